@@ -155,6 +155,9 @@ func execInv(a []Tok) string {
 		for i, y := range ys {
 			xs[i] = inv(y)
 		}
+		if len(ys) <= 64 {
+			concurrentSame("InvCDF closure", inv, ys, xs)
+		}
 		return fmtFs(xs)
 	}
 	y := rest[0].F()
